@@ -194,6 +194,28 @@ CHECKS = {
             'deterministic simulation: seeded states and batches, '
             'exhaustive enumeration of (failure position x rejection '
             'reason) per run, repository-dump equality oracle'),
+    'C12': ('store', 'exploration',
+            'model-based histories against an independent reference '
+            'resolver: a generated forest (3-12 classes, depth <= 5, fan-out '
+            '<= 4, overriding and non-overriding properties / methods / '
+            'parameters, qualifier declarations with the four ToSubclass/'
+            'Restricted x Enable/DisableOverride flavor combinations at '
+            'every level) is built on three replicas (CreateClass in two '
+            'topological orders, MOF compile) that must answer identically; '
+            'then a history of create (CreateClass / MOF / add_cimobjects), '
+            'ModifyClass, rejected ModifyClass, DeleteClass, CreateInstance '
+            'steps with case-variant names and re-created names; after every '
+            'step GetClass (full and sampled flag combinations), '
+            'EnumerateClasses, EnumerateClassNames, EnumerateInstances and '
+            'EnumerateInstanceNames are compared with the model',
+            'propagated / LocalOnly treatment of overriding elements is not '
+            'judged; overriding methods keep the parameter names; flavors '
+            'and propagated of qualifier values are compared between '
+            'replicas only; one open known finding (class-level qualifiers '
+            'are not handed down)',
+            'deterministic simulation (history search): seeded class-forest '
+            'histories on three replicas against an executable reference '
+            'resolver'),
 }
 
 ENGINES = [
